@@ -91,7 +91,7 @@ def comp(p, typ="weight"):
 def perm(v, units=None):
     p = pv.Permeance.__new__(pv.Permeance)
     p.value = v
-    p.units = units or pv.Units.kg_m2_h_kPa
+    p.units = units if units is not None else pv.Units.kg_m2_h_kPa
     return p
 
 
